@@ -11,7 +11,7 @@ CHECKS = {
     "C11": dict(
         category="model_checking",
         technique="stateless deviation-bounded schedule exploration (DX) of the real Session on a deterministic single-threaded runtime",
-        text="Every execution of 2 concurrent openers (+ forwarding task, + heartbeat writer) on a fresh or already used client session, for 3 padding schemes, with at most B forced pre-emptions at the named scheduling points / short or pending transport writes (B=2 quick, 3 thorough; 1/2 with transport menus) is run on the real code and its decoded wire compared with each task's submission log.",
+        text="Every execution of 2 concurrent openers (+ forwarding task, + heartbeat writer) on a fresh or already used client session, for 3 padding schemes, with at most B forced pre-emptions at the named scheduling points / short or pending transport writes (B=2 quick, 3 thorough; 1/2 with transport menus) is run on the real code and its decoded wire compared with each task's submission log. Over-size first chunks (70 000 bytes, merged per-stream comparison). Client level: 2 (3) concurrent create_proxy_stream calls on the real Client (dial, TLS handshake, authentication, session set-up, pool) over the in-memory dialer seam (H12) against a scripted TLS server, <= 2 deviations: per connection the settings frame is first and unique, SYN precedes data, the first data frame of every stream is its destination.",
         note="Trusted: the vpipe transport model (DESIGN 4.2), tokio's current-thread scheduler semantics, scheduling points only at the named hooks and transport calls, sequentially consistent atomics.",
         design="DESIGN.md §6 C11",
     ),
@@ -28,7 +28,7 @@ CHECKS["C09"] = dict(
 CHECKS["C01"] = dict(
     category="model_checking",
     technique="exhaustive chunk-size-sequence sweep plus deviation-bounded schedule/transport exploration (DX) of two real linked Sessions; IX sweep at the Stream AsyncRead/AsyncWrite seam",
-    text="Real client session <-> real server session over virtual pipes. B=0 sweep of every sequence of <=2 chunk sizes (thorough: +3 over a reduced set) from 15 boundary sizes 0..131072 x direction x both submission paths x 3 padding schemes x read-buffer sizes x pipe capacity; DX (B<=2 quick, 3 thorough) of concurrent flows on 1-2 streams with forced yields, short reads straddling frame headers, short/pending writes and back-pressure. Oracle at every read return: bytes are the exact continuation of the position-coded pattern; at quiescence everything submitted was read, nothing more, and no 0-byte read happened while the stream was open.",
+    text="Real client session <-> real server session over virtual pipes. B=0 sweep of every sequence of <=2 chunk sizes (thorough: +3 over a reduced set) from 15 boundary sizes 0..131072 x direction x both submission paths x 3 padding schemes x read-buffer sizes x pipe capacity; DX (B<=2 quick, 3 thorough) of concurrent flows on 1-2 streams with forced yields, short reads straddling frame headers, short/pending writes and back-pressure. Oracle at every read return: bytes are the exact continuation of the position-coded pattern; at quiescence everything submitted was read, nothing more, and no 0-byte read happened while the stream was open. Read calls of varying sizes incl. zero-length ones. LX supplement through the real SOCKS5 / HTTP CONNECT front-ends, TLS, Server and handler: echo of 1..200 000 (1 000 000) bytes on 3 concurrent connections (one half-closing after writing), and 12 (24) MB uploads to a slow target / downloads by a slow application (tiny receive buffers: partial and pending writes in the forwarding loops).",
     note="Trusted: vpipe environment, fixed position/stream/direction-coded payload pattern (other contents not explored), at most 2 streams, TLS record layer out of scope.",
     design="DESIGN.md §6 C01",
 )
@@ -50,14 +50,14 @@ CHECKS["C03"] = dict(
 CHECKS["C04"] = dict(
     category="exploration",
     technique="exhaustive enumeration (IX) of a generated padding-scheme grammar on the real Session write path, wire parsed by a reference parser",
-    text="Every scheme line of <=2 (thorough 3) entries over 16 entry forms (check mark, ranges, reversed, <=0, non-numeric, sizes around and above 65535) x stop in {0,1,2,3,9} x draw policy x 10 payload sizes per packet, plus the real first batch, an 'only line 2' scheme, over-long chunks and the server role; thorough adds sizes >= 2^31 in child processes under RLIMIT_AS. The recorded transport bytes must parse into whole frames and, minus padding frames, equal the submitted frames byte for byte.",
+    text="Every scheme line of <=2 (thorough 3) entries over 16 entry forms (check mark, ranges, reversed, <=0, non-numeric, sizes around and above 65535) x stop in {0,1,2,3,9} x draw policy x 10 payload sizes per packet, plus the real first batch, an 'only line 2' scheme, over-long chunks and the server role; thorough adds sizes >= 2^31 in child processes under RLIMIT_AS. The recorded transport bytes must parse into whole frames and, minus padding frames, equal the submitted frames byte for byte. Plus every line of 3..4 (5) entries over a reduced alphabet, and 'first flush' cases where the first data frame of a new client session (the one that flushes the buffered Settings + SYN) takes 12 sizes up to 70 000.",
     note="Trusted: reference parser; the random draw is replaced by the enumerated policies {min, max, min+1} through the H3 hook; healthy transport.",
     design="DESIGN.md §6 C04",
 )
 CHECKS["C05"] = dict(
     category="model_checking",
     technique="exhaustive scheme/payload enumeration against a reference shape acceptor plus deviation-bounded schedule exploration (DX) of concurrent writers",
-    text="Every scheme line of <=2 (thorough 3) entries over 12 entry forms x stop x draw policy x 10 payload sizes: the write lengths of every flush-delimited packet k >= 1 must be accepted by line k (reference acceptor, nondeterministic in the draw), packets >= stop / without a line / on the server side are one unpadded write; the authentication preamble for every line 0; DX with 2-3 concurrent writers and <= 2 (3) pre-emptions checks wire order against packet index.",
+    text="Every scheme line of <=2 (thorough 3) entries over 12 entry forms x stop x draw policy x 10 payload sizes: the write lengths of every flush-delimited packet k >= 1 must be accepted by line k (reference acceptor, nondeterministic in the draw), packets >= stop / without a line / on the server side are one unpadded write; the authentication preamble for every line 0; DX with 2-3 concurrent writers and <= 2 (3) pre-emptions checks wire order against packet index. Plus every line of 3..4 (5) entries over a reduced alphabet {c,7,8,30,100-400} and the first-flush size cases; draw policies incl. 'alternate'.",
     note="Trusted: the acceptor (refmodel::accept_packet) written from the protocol's shaping rule; sizes > 65535 excluded (C04); a line 0 starting with a check mark may give 0 or its first range.",
     design="DESIGN.md §6 C05",
 )
@@ -65,14 +65,14 @@ CHECKS["C05"] = dict(
 CHECKS["C07"] = dict(
     category="exploration",
     technique="exhaustive destination / fragmentation enumeration through the real client encoder and server parser (DET), explicit-state search over resolver histories (BX), loopback dialling through the real TcpProxyHandler (SEMI)",
-    text="Destinations {5 IPv4, 5 IPv6} x boundary ports, every domain length 1..=256 (ASCII and multi-byte UTF-8; 256 must be refused), almost-addresses and a port sweep (thorough: all 65536 ports x 3 address types) go through the real Client::create_proxy_stream on a pool-injected session and are decoded by the real server-side parser; the destination header is cut into <=3 data frames at every position; every resolve/age/clear history up to depth 3 (4) over 2 hosts x 2 ports on both resolver branches (trust-dns against a harness DNS stub, system resolver for localhost); every (name | literal, listener) pair incl. names containing the UDP magic string is dialled through the real handler and must arrive at the listener bound to exactly that address and port.",
+    text="Destinations {5 IPv4, 5 IPv6} x boundary ports, every domain length 1..=256 (ASCII and multi-byte UTF-8; 256 must be refused), almost-addresses and a port sweep (thorough: all 65536 ports x 3 address types) go through the real Client::create_proxy_stream on a pool-injected session and are decoded by the real server-side parser; the destination header is cut into <=3 data frames at every position; every resolve/age/clear history up to depth 3 (4) over 2 hosts x 2 ports on both resolver branches (trust-dns against a harness DNS stub, system resolver for localhost); every (name | literal, listener) pair incl. names containing the UDP magic string is dialled through the real handler and must arrive at the listener bound to exactly that address and port. UDP associations: the target named in the initial request written by the real Client::create_udp_proxy, decrypted by a scripted TLS server behind the in-memory dialer seam (H12), for 17 (23) IPv4/IPv6 address shapes x boundary ports. Concurrent resolves of one host under DX (H11 points).",
     note="Trusted: harness DNS stub and /etc/hosts; cache ageing through the H9 hook; loopback only; real time with timing-independent oracles for the SEMI part.",
     design="DESIGN.md §6 C07",
 )
 CHECKS["C10"] = dict(
     category="model_checking",
     technique="deviation-bounded schedule exploration (DX) of the real Client::create_proxy_stream against a scripted server under virtual time, plus loopback cases through the real TcpProxyHandler (SEMI)",
-    text="Client half: 10 server behaviours (ok, error text, silence, duplicates, unknown id, session death by EOF/reset/Alert) x answer times {0, 1 s, 29.999 s, 30 s, 30.001 s, never} x {1 opener, 2 racing openers with every pair of behaviours} with <= 1 (2) scheduling deviations; the result must be the reference model's (first of answer / death / 30 s wins), carry the server's reason, and come at the right virtual time. Server half: peer versions {none,1,2,3} x {accepting, refusing, (thorough) black-holed} targets x {literal, name} x early data: exactly one SYNACK per SYN for v>=2, empty only when the target was really connected, none for older peers, no data frame before the SYNACK.",
+    text="Client half: 10 server behaviours (ok, error text, silence, duplicates, unknown id, session death by EOF/reset/Alert) x answer times {0, 1 s, 29.999 s, 30 s, 30.001 s, never} x {1 opener, 2 racing openers with every pair of behaviours} with <= 1 (2) scheduling deviations; the result must be the reference model's (first of answer / death / 30 s wins), carry the server's reason, and come at the right virtual time. Server half: peer versions {none,1,2,3} x {accepting, refusing, (thorough) black-holed} targets x {literal, name} x early data: exactly one SYNACK per SYN for v>=2, empty only when the target was really connected, none for older peers, no data frame before the SYNACK. Plus a black-holed uplink once the request is out (the peer stops reading, the transport accepts nothing): verdict or timeout must still be reported.",
     note="Trusted: H4 accessor places an in-memory session in the real pool; scripted server; SEMI part runs one schedule per case in real time.",
     design="DESIGN.md §6 C10",
 )
@@ -80,7 +80,7 @@ CHECKS["C10"] = dict(
 CHECKS["C14"] = dict(
     category="model_checking",
     technique="exhaustive configuration/timing grid of the real heartbeat task under virtual time, with deviation-bounded schedule exploration (DX) on the small configurations",
-    text="Real client session (started the way client.rs does) against a scripted peer over pipes with one-way latency: interval x timeout (whole seconds incl. T<I and T=I) x round trip {0, 2 ms, T/2, T-2 ms} x silence instant {never, from the start, before/after response k=1..3} x {idle, stream traffic every I/3}; is_closed sampled every 50 ms of virtual time up to 20*max(I,T). Healthy peers must never be closed; silent peers must be closed, with the blocked reader released, by last answer + T + I.",
+    text="Real client session (started the way client.rs does) against a scripted peer over pipes with one-way latency: interval x timeout (whole seconds incl. T<I and T=I) x round trip {0, 2 ms, T/2, T-2 ms} x silence instant {never, from the start, before/after response k=1..3} x {idle, stream traffic every I/3}; is_closed sampled every 50 ms of virtual time up to 20*max(I,T). Healthy peers must never be closed; silent peers must be closed, with the blocked reader released, by last answer + T + I. Plus black-holing peers with an upload in progress, the largest accepted values (u64::MAX s), and a client-level real-time part: sessions created by the real Client with 2 (4) interval/timeout pairs against a scripted TLS server that falls silent (request spacing = interval, close between timeout and timeout + interval after the last answer).",
     note="Trusted: scripted peer answers immediately (delay = pipe latency); virtual clock; sampling step 50 ms. The T<I class was a known finding and is fixed (56bf550); no C14 key is listed as open.",
     design="DESIGN.md §6 C14",
 )
@@ -88,7 +88,7 @@ CHECKS["C14"] = dict(
 CHECKS["C08"] = dict(
     category="model_checking",
     technique="deviation-bounded schedule/transport exploration (DX) of the receive-side end-of-stream mechanism on real sessions, plus loopback propagation cases through the real forwarding loops (SEMI/LX)",
-    text="Receive side (both roles): 0..3 data frames then FIN, reader blocked / arriving later / holding a partly consumed chunk, 5 read-buffer sizes, optional sibling stream, short reads straddling the FIN header and <= 2 (3) scheduling deviations; the reader must see end-of-stream after exactly the bytes sent before the FIN, the sibling and the opposite direction keep working, the session tables drop the id. Propagation: a target that sends M bytes and closes / half-closes behind the real TcpProxyHandler, and an application that sends N bytes and closes / half-closes through the real SOCKS5 and HTTP CONNECT front-ends over TLS; the opposite endpoint must see end-of-stream after exactly those bytes.",
+    text="Receive side (both roles): 0..3 data frames then FIN, reader blocked / arriving later / holding a partly consumed chunk, 5 read-buffer sizes, optional sibling stream, short reads straddling the FIN header and <= 2 (3) scheduling deviations; the reader must see end-of-stream after exactly the bytes sent before the FIN, the sibling and the opposite direction keep working, the session tables drop the id. Propagation: a target that sends M bytes and closes / half-closes behind the real TcpProxyHandler, and an application that sends N bytes and closes / half-closes through the real SOCKS5 and HTTP CONNECT front-ends over TLS; the opposite endpoint must see end-of-stream after exactly those bytes. Receive side also with zero-length read calls and with another task inside open_stream() while the FIN is handled.",
     note="Trusted: scripted peer for the receive side; real time and a 3 s wait to conclude 'never observes end-of-stream' in the propagation part (cannot accuse correct code on loopback). The send side is an open known finding (no FIN is ever emitted), keyed per call site.",
     design="DESIGN.md §6 C08",
 )
@@ -96,14 +96,14 @@ CHECKS["C08"] = dict(
 CHECKS["C12"] = dict(
     category="model_checking",
     technique="explicit-state search (BX) over all operation histories on the real SessionPool with real sessions under virtual time, checked step by step against a reference model and invariants",
-    text="Every history of depth 5 (thorough 6) over {new, new+stream, get, open(s), fin(s), die(s), cleanup_expired, advance(I/2 | I | T)} with <= 2 (3) sessions x 4 (6) configurations of (check interval, idle timeout, min_idle incl. 0 and timeout < interval), replayed from scratch on fresh real objects; after every step: Get never returns a closed or already handed-out session and never ignores an available one, housekeeping never closes a session with an open stream or one that was handed out, the minimum number of idle sessions survives each pass, idle_count agrees with the model; after timeout + 2 intervals of inactivity no surplus idle session remains.",
+    text="Every history of depth 5 (thorough 6) over {new, new+stream, get, open(s), fin(s), die(s), cleanup_expired, advance(I/2 | I | T)} with <= 2 (3) sessions x 4 (6) configurations of (check interval, idle timeout, min_idle incl. 0 and timeout < interval), replayed from scratch on fresh real objects; after every step: Get never returns a closed or already handed-out session and never ignores an available one, housekeeping never closes a session with an open stream or one that was handed out, the minimum number of idle sessions survives each pass, idle_count agrees with the model; after timeout + 2 intervals of inactivity no surplus idle session remains. The alphabet also has put(s) (a handed-out session returned to the pool); a pool-only sub-alphabet {new, get, put, advance} is explored two levels deeper; after every reaper pass no stream-less pooled session idle for longer than the timeout survives beyond the minimum.",
     note="Trusted: virtual clock, sessions over vpipes with a scripted peer; 'in use' = stream table non-empty. Two keys caused by 'session in the idle map while in use' are open known findings.",
     design="DESIGN.md §6 C12",
 )
 CHECKS["C13"] = dict(
     category="model_checking",
     technique="explicit-state search (BX) over request histories driven through the real Client and Server over TLS on loopback (LX)",
-    text="Every history of length <= 6 (thorough 8) over {start request, finish request i} x min_idle in {0,1,2}: per request the identity of the session that served it and the number of new TLS connections seen by a counting relay in front of the real server; a request that starts while no other is active and a healthy session exists must be served by an existing session without dialling; open sessions <= peak concurrency + min_idle after every step.",
+    text="Every history of length <= 6 (thorough 8) over {start request, finish request i} x min_idle in {0,1,2}: per request the identity of the session that served it and the number of new TLS connections seen by a counting relay in front of the real server; a request that starts while no other is active and a healthy session exists must be served by an existing session without dialling; open sessions <= peak concurrency + min_idle after every step. Plus a virtual-time family: every history of depth 6 (7) over {start, finish i, the server drops connection j, wait I/2, wait > T+I} on the real Client over the in-memory dialer seam (H12) for 3 (5) interval/timeout/min_idle configurations; LX also has bursts, session deaths and a short-timeout family with a wait.",
     note="Trusted: timers set to 1 h so only the history matters; loopback TLS; one schedule per history. Reuse is broken on the unchanged tree (open known finding keyed by the shortest failing history).",
     design="DESIGN.md §6 C13",
 )
@@ -111,7 +111,7 @@ CHECKS["C13"] = dict(
 CHECKS["C06"] = dict(
     category="exploration",
     technique="exhaustive input enumeration (IX) of authenticate_client over a byte-counting fragmenting reader, plus the same families as real TLS connections to the real Server (LX)",
-    text="Right hash; all 256 single-bit flips; single-byte substitutions (thorough: all 32x255); k-byte prefix/suffix matches; hashes of 12 related passwords; every declared padding length 0..=65535 followed by a sentinel frame (exactly 34+L bytes consumed); every truncation for padding {0,1,30,300}; every 1-cut (thorough: every 2-cut) fragmentation and byte-at-a-time. LX: ~260 (thorough ~420) TLS connections carrying the preamble followed by a valid Settings+SYN+destination+data: for a bad preamble zero application bytes come back, the server closes the connection and the target is never contacted; for a good one the data reaches the target.",
+    text="Right hash; all 256 single-bit flips; single-byte substitutions (thorough: all 32x255); k-byte prefix/suffix matches; hashes of 12 related passwords; every declared padding length 0..=65535 followed by a sentinel frame (exactly 34+L bytes consumed); every truncation for padding {0,1,30,300}; every 1-cut (thorough: every 2-cut) fragmentation and byte-at-a-time. LX: ~260 (thorough ~420) TLS connections carrying the preamble followed by a valid Settings+SYN+destination+data: for a bad preamble zero application bytes come back, the server closes the connection and the target is never contacted; for a good one the data reaches the target. Plus incomplete preambles followed by 11..301 (3601) s of silence on the open connection and then frames (clock of a current-thread runtime jumped).",
     note="Trusted: the deviation families stand for the other 2^256 preambles; timing side channels out of scope; loopback TLS.",
     design="DESIGN.md §6 C06",
 )
@@ -119,7 +119,7 @@ CHECKS["C06"] = dict(
 CHECKS["C16"] = dict(
     category="exploration",
     technique="exhaustive input enumeration (IX) of SOCKS5 greetings/requests and forced TCP fragmentations through the real front-end, Client, TLS, Server and handler on loopback (LX), against a reference SOCKS5 model",
-    text="Versions {0,4,5,6,255} x every method list of length <= 3 over {00,01,02,80,ff} (+ 255-long lists with 00 first / last / absent); every command byte 0..=255; reserved byte, request version, address types {0,1,2,3,4,5,255}, domain lengths {0,1,255}, unresolvable / invalid names, ::1, a refusing port; every truncation of the request; the canonical IPv4 and domain exchanges and 8 multi-method greetings under every single forced TCP cut and byte-at-a-time. Reference: 05 00 iff version 5 and 00 offered, otherwise refusal; a tunnel (echo through the requested target, nothing at any other target) iff CONNECT with a valid address to an accepting target, and 'succeeded' only then; failures are a non-zero reply or a close and end only that connection (a canonical request afterwards still succeeds).",
+    text="Versions {0,4,5,6,255} x every method list of length <= 3 over {00,01,02,80,ff} (+ 255-long lists with 00 first / last / absent); every command byte 0..=255; reserved byte, request version, address types {0,1,2,3,4,5,255}, domain lengths {0,1,255}, unresolvable / invalid names, ::1, a refusing port; every truncation of the request; the canonical IPv4 and domain exchanges and 8 multi-method greetings under every single forced TCP cut and byte-at-a-time. Reference: 05 00 iff version 5 and 00 offered, otherwise refusal; a tunnel (echo through the requested target, nothing at any other target) iff CONNECT with a valid address to an accepting target, and 'succeeded' only then; failures are a non-zero reply or a close and end only that connection (a canonical request afterwards still succeeds). The canonical IPv4 / domain / IPv6 exchanges also under every single cut with 31 / 301 s of silence between the pieces (clock jump on a current-thread runtime).",
     note="Trusted: harness echo targets on 127.0.0.1 / 127.0.0.2 / ::1 and a reserved refusing port; fragmentation forced by waiting for the front-end's receive queue to drain (/proc/net/tcp); real time, timing-independent oracle (waits exceed every documented timeout).",
     design="DESIGN.md §6 C16",
 )
@@ -127,7 +127,7 @@ CHECKS["C16"] = dict(
 CHECKS["C17"] = dict(
     category="exploration",
     technique="exhaustive input enumeration (IX) of the real HTTP request parser/rewriter against an independent reference resolver, plus boundary and ordering cases through the real front-end over loopback (LX)",
-    text="~10^5 (thorough ~3x10^5) generated proxy requests: {GET,POST,PUT,OPTIONS,CONNECT} x target forms {origin, '*', absolute http/https with and without path/query, authority} x 5 host spellings (names in two cases, IPv4, two bracketed IPv6) x ports {none,80,443,8080,65535} x Host header {absent, 4 letter-case spellings with/without space, differing from the URI} at every position among 0-2 other headers (duplicates, a name that merely starts with 'host') x versions x body prefixes; oracle: tunnel authority, CONNECT flag, forwarded request line, other headers in order, exactly one Host line at the original position (or appended) denoting the same authority, body prefix intact. LX: header blocks of 65000 / 65536 / 65537 bytes with body bytes in the same or a later segment and forced first-segment sizes, CONNECT '200' only with a tunnel, early bytes after a CONNECT header exactly once, refusing target, origin-form forwarding per Host spelling.",
+    text="~10^5 (thorough ~3x10^5) generated proxy requests: {GET,POST,PUT,OPTIONS,CONNECT} x target forms {origin, '*', absolute http/https with and without path/query, authority} x 5 host spellings (names in two cases, IPv4, two bracketed IPv6) x ports {none,80,443,8080,65535} x Host header {absent, 4 letter-case spellings with/without space, differing from the URI} at every position among 0-2 other headers (duplicates, a name that merely starts with 'host') x versions x body prefixes; oracle: tunnel authority, CONNECT flag, forwarded request line, other headers in order, exactly one Host line at the original position (or appended) denoting the same authority, body prefix intact. LX: header blocks of 65000 / 65536 / 65537 bytes with body bytes in the same or a later segment and forced first-segment sizes, CONNECT '200' only with a tunnel, early bytes after a CONNECT header exactly once, refusing target, origin-form forwarding per Host spelling. LX also: body bytes exactly once for headers near 65535 bytes, terminator straddling read boundaries, requests arriving in two pieces with 31 / 301 s of silence.",
     note="Trusted: reference resolver written from RFC 7230 section 5; H8 wrappers expose the private functions unchanged; LX in real time with forced TCP cuts.",
     design="DESIGN.md §6 C17",
 )
@@ -135,7 +135,7 @@ CHECKS["C17"] = dict(
 CHECKS["C15"] = dict(
     category="exploration",
     technique="exhaustive size and fragmentation enumeration (IX) through the real UDP relay loops over real loopback sockets in lock-step (SEMI)",
-    text="Datagram sizes (quick: boundary sizes 1..3, 253..258, 1471..1473, 8190..8194, 65505..65507 and a stride; thorough: every size 1..=65507) in both directions through the real server-side handler and the real client-side relay loop, position-coded contents, one received datagram per sent one, nothing extra; every 1-cut and 2-cut split and byte-at-a-time delivery of 2- and 3-datagram length-prefixed streams including cuts inside the initial request; end to end through Client::create_udp_proxy, the real sessions and TcpProxyHandler for an IPv4 and an IPv6 target, with a decoy socket that must stay silent.",
+    text="Datagram sizes (quick: boundary sizes 1..3, 253..258, 1471..1473, 8190..8194, 65505..65507 and a stride; thorough: every size 1..=65507) in both directions through the real server-side handler and the real client-side relay loop, position-coded contents, one received datagram per sent one, nothing extra; every 1-cut and 2-cut split and byte-at-a-time delivery of 2- and 3-datagram length-prefixed streams including cuts inside the initial request; end to end through Client::create_udp_proxy, the real sessions and TcpProxyHandler for an IPv4 and an IPv6 target, with a decoy socket that must stay silent. Two local applications alternating on one association; two-piece deliveries with up to 301 (3601) s of silence between the pieces in both directions (clock jump).",
     note="Trusted: loopback UDP does not lose datagrams in lock-step; hand-built Stream objects carry the tunnel's byte stream in chosen pieces; H7 wrapper exposes the private client loop unchanged.",
     design="DESIGN.md §6 C15",
 )
@@ -143,7 +143,7 @@ CHECKS["C15"] = dict(
 CHECKS["C18"] = dict(
     category="fault_enumeration",
     technique="explicit-state search (BX) over disk-operation/reload histories and exhaustive fault enumeration (every truncation prefix, a disk change at every point inside a reload) on the real CertReloader with real files and real TLS handshakes",
-    text="Every history of depth 3 (thorough 4) plus a final reload over {write cert or key of pairs B, C and the long-expired D (each file alone = both orders of a two-file update), truncate cert/key, garbage, delete, reload}; every byte prefix of the certificate and of the key file; a disk operation landing at each of 5 synchronous points inside a reload for 6 pre-states. After every step a real in-memory TLS handshake against the current acceptor yields the presented leaf; get_cert_info / reload count / last-reload are snapshotted: a failed reload must change nothing, a successful one must serve the pair that was on disk, report that certificate's info, bump the count; the leaf served is always one loaded together with its key; a TLS connection made before the history still carries data.",
+    text="Every history of depth 3 (thorough 4) plus a final reload over {write cert or key of pairs B, C and the long-expired D (each file alone = both orders of a two-file update), truncate cert/key, garbage, delete, reload}; every byte prefix of the certificate and of the key file; a disk operation landing at each of 5 synchronous points inside a reload for 6 pre-states. After every step a real in-memory TLS handshake against the current acceptor yields the presented leaf; get_cert_info / reload count / last-reload are snapshotted: a failed reload must change nothing, a successful one must serve the pair that was on disk, report that certificate's info, bump the count; the leaf served is always one loaded together with its key; a TLS connection made before the history still carries data. Materials also share attributes (same key and serial, same serial with a new key) and include CA-issued leaves in chain files (leaf first, CA first, expired leaf behind a valid CA); plus a real Server built on the reloader's shared acceptor (as bin/server.rs does) whose fresh TCP+TLS connections are checked after every step of a 9-step reload history.",
     note="Trusted: rcgen material, real files under /verif/scratch (removed afterwards), H10 sync points between the reload's file reads; which certificates count as expired is not fixed by the property (only the long-expired pair is used).",
     design="DESIGN.md §6 C18",
 )
@@ -151,7 +151,7 @@ CHECKS["C18"] = dict(
 CHECKS["C19"] = dict(
     category="model_checking",
     technique="explicit-state search (BX) over process histories, each replayed in a fresh child process on real client sessions (virtual pipes) and through the real Client against a scripted TLS server",
-    text="Every history of length <= 3 (thorough 4) over {touch the built-in default first, session whose server pushes scheme B / C / an unparsable scheme followed by shaped writes, client request on a new session against a scripted TLS server using B / C}: after a parsable push the session's next packets must have exactly the pushed scheme's write sizes (B and C prescribe one 200- / 300-byte write per packet), sessions created afterwards must start with the adopted scheme and announce its md5 so that the server does not push again, an unparsable push changes nothing and the session keeps working; 180 (thorough ~900) child processes.",
+    text="Every history of length <= 3 (thorough 4) over {touch the built-in default first, session whose server pushes scheme B / C / an unparsable scheme followed by shaped writes, client request on a new session against a scripted TLS server using B / C}: after a parsable push the session's next packets must have exactly the pushed scheme's write sizes (B and C prescribe one 200- / 300-byte write per packet), sessions created afterwards must start with the adopted scheme and announce its md5 so that the server does not push again, an unparsable push changes nothing and the session keeps working; 180 (thorough ~900) child processes. The alphabet also has a client constructed with a custom scheme, the built-in default text as a pushed scheme, and a retyped scheme (same lines, other text, other md5); plus an exhaustive per-session grid (stop of the announced scheme x stop of the pushed scheme x packets sent before the push).",
     note="Trusted: the child mimics bin/client.rs (client constructed once with the process default); the scripted TLS server reads the announced padding-md5 from the Settings frame; write sizes are observed on virtual pipes.",
     design="DESIGN.md §6 C19",
 )
@@ -159,7 +159,7 @@ CHECKS["C19"] = dict(
 CHECKS["C20"] = dict(
     category="exploration",
     technique="exhaustive hostile-input enumeration (IX) on real sessions under virtual time with a process-wide panic hook, spin guard and watchdog; parser sweeps; malformed input on the real front-ends (LX)",
-    text="Both roles: single frames over all 256 command bytes x ids {0,1,2,0xffffffff} x 9 payloads (valid / garbage / invalid-UTF-8 settings, 65535 bytes, hostile scheme texts with huge, negative and overflowing numbers), also as the very first frame, and all pairs over a reduced alphabet (quick 88^2, thorough 480^2); every bit flip in the first 160 bytes (thorough: all), every truncation, frame duplication, adjacent swap and length-field corruption {0, len-1, len+1, 65535} of a recorded conversation in each direction; the destination parser and the UDP initial-request / datagram parsers on all 256 type bytes x lengths {0,1,255} x truncations; ~400 HTTP header blocks with multi-byte characters at every offset of a header line and degenerate targets/methods; malformed byte strings on the SOCKS5 and HTTP listeners followed by a well-formed request on a sibling connection. Oracle: no panic on any thread, no spin or real-time wedge, and afterwards a well-formed exchange works or the session is closed with its transport shut down.",
+    text="Both roles: single frames over all 256 command bytes x ids {0,1,2,0xffffffff} x 9 payloads (valid / garbage / invalid-UTF-8 settings, 65535 bytes, hostile scheme texts with huge, negative and overflowing numbers), also as the very first frame, and all pairs over a reduced alphabet (quick 88^2, thorough 480^2); every bit flip in the first 160 bytes (thorough: all), every truncation, frame duplication, adjacent swap and length-field corruption {0, len-1, len+1, 65535} of a recorded conversation in each direction; the destination parser and the UDP initial-request / datagram parsers on all 256 type bytes x lengths {0,1,255} x truncations; ~400 HTTP header blocks with multi-byte characters at every offset of a header line and degenerate targets/methods; malformed byte strings on the SOCKS5 and HTTP listeners followed by a well-formed request on a sibling connection. Oracle: no panic on any thread, no spin or real-time wedge, and afterwards a well-formed exchange works or the session is closed with its transport shut down. LX also: connections stalling with incomplete input (held open) on both front-end listeners and on the server's TLS listener while a well-formed sibling request arrives.",
     note="Trusted: hostile input is zero-padded to the next frame boundary of the reference parser before the follow-up exchange (a corrupted length legitimately swallows what follows); 1 h virtual horizon; panic hook is process-wide.",
     design="DESIGN.md §6 C20",
 )
